@@ -78,3 +78,23 @@ Example C07_escape_roundtrip_partial_nonvacuous :
   read_lit (str_lit (lit "a := (1 ; <x>)") ++ [41]) = Some (lit "a := (1 ; <x>)", [41]).
 Proof. exact escape_roundtrip_plain_nonvacuous. Qed.
 Print Assumptions C07_escape_roundtrip_partial_nonvacuous.
+
+(* Full statement (FALSE): unparse_isla returns a text for every constraint:
+   forall f, exists t, unparse_res f = Ok t.  A re.loop with fewer than two parameters
+   (accepted by parse_isla as `((_ re.loop 1) r)` or `(re.loop r 1 2)`) raises IndexError. *)
+Theorem C07_unparse_total_refuted : exists f, unparse_res f = Raise IndexErr.
+Proof. exact unparse_total_refuted. Qed.
+Print Assumptions C07_unparse_total_refuted.
+
+Theorem C07_unparse_total_partial : forall f, K_loop_arity f = false -> unparse_res f = Ok (unparse f).
+Proof. exact unparse_total_partial. Qed.
+Print Assumptions C07_unparse_total_partial.
+
+(* boundary values of the indexed operator are printed with both parameters (upper bound 0 included) *)
+Example C07_unparse_total_partial_nonvacuous :
+  K_loop_arity (FSmt (SApp KInRe (lit "str.in_re")
+     [SVar (lit "x"); SApp (KLoop 1 0) (lit "re.loop") [SApp KOther (lit "str.to_re") [SStr (lit "a")]]], [v_x])) = false
+  /\ smt_str (SApp (KLoop 1 0) (lit "re.loop") [SApp KOther (lit "str.to_re") [SStr (lit "a")]])
+     = lit "((_ re.loop 1 0) (str.to_re ""a""))".
+Proof. exact unparse_total_partial_nonvacuous. Qed.
+Print Assumptions C07_unparse_total_partial_nonvacuous.
